@@ -115,8 +115,18 @@ def selector(info, cn, l, xvar='x'):
     return c.replace('x.', xvar + '.') if c else None
 
 
-def compare_members(info, cn, label_prefix, A, xvar='x', yvar='y'):
-    """RT1: every serialised member of y equals x (x after write: length fields refreshed)"""
+def is_library_derived(info, cn, l):
+    """members the library itself derives on write: size/length/count fields and documented recomputed fields"""
+    if l['owner'] == 'ObjectHeaderBase' and l['name'] in ('headerSize', 'objectSize', 'signature'): return True
+    if info.derived('recomputed_on_write', l['owner'], l['name']): return True
+    if l['kind'] == 'scalar' and info.length_field_of(l): return True
+    if l['owner'] == 'LogContainer' and l['name'] == 'compressedFileSize': return True
+    return False
+
+
+def compare_members(info, cn, label_prefix, A, xvar='x', yvar='y', tag='in'):
+    """RT1: every serialised member of y equals what the CALLER put into x (the harness inputs); members the
+       library derives itself (sizes, lengths) are compared with x after write"""
     for l in info.leaves(cn):
         p = l['path']
         if info.derived('not_serialised', l['owner'], l['name']): continue
@@ -124,16 +134,19 @@ def compare_members(info, cn, label_prefix, A, xvar='x', yvar='y'):
         cond = when_cond(info, cn, l, xvar)
         g = '!(%s) || ' % cond if cond else ''
         lab = '%s/member:%s' % (label_prefix, p)
+        n = '%s_%s' % (tag, cid(p))
+        derived = is_library_derived(info, cn, l)
         if sel is not None:
             A('%s.%s == %s' % (yvar, p, sel), '%s/selector:%s' % (label_prefix, p)); continue
         if l['kind'] == 'scalar' and l['ctype'] in classinfo.SIZES:
+            rhs = '%s.%s' % (xvar, p) if derived else n
             if l['ctype'] == 'double':
-                A('%s*(uint64_t *)&%s.%s == *(uint64_t *)&%s.%s' % (g, yvar, p, xvar, p), lab)
+                A('%s*(uint64_t *)&%s.%s == *(uint64_t *)&%s' % (g, yvar, p, rhs), lab)
             else:
-                A('%s%s.%s == %s.%s' % (g, yvar, p, xvar, p), lab)
+                A('%s%s.%s == %s' % (g, yvar, p, rhs), lab)
         elif l['kind'] == 'array':
-            A('%sk >= %d || %s.%s.e[k] == %s.%s.e[k]' % (g, l['count'], yvar, p, xvar, p), lab)
+            A('%sk >= %d || %s.%s.e[k] == %s[k]' % (g, l['count'], yvar, p, n), lab)
         elif l['kind'] == 'vec':
-            A('%s%s.%s.size == %s.%s.size' % (g, yvar, p, xvar, p), lab + '.size')
-            A('%s%s.%s.size != %s.%s.size || k >= %s.%s.size || %s.%s.data[k] == %s.%s.data[k]' % (
-                g, yvar, p, xvar, p, xvar, p, yvar, p, xvar, p), lab + '.content')
+            A('%s%s.%s.size == %s__size' % (g, yvar, p, n), lab + '.size')
+            A('%s%s.%s.size != %s__size || k >= %s__size || %s.%s.data[k] == %s[k]' % (
+                g, yvar, p, n, n, yvar, p, n), lab + '.content')
